@@ -174,7 +174,8 @@ def build(spec: dict, log: typing.Optional[str] = None, opaque: bool = False) ->
         if g == i:
             names[g] = f'n{g}'
             given = symbolic.Opaque(names[g]) if opaque else names[g]
-            nodes.append(flow.Worker(symbolic.builder(given, m['stateful'], max(1, m['szout']), log), m['szin'], m['szout']))
+            nodes.append(flow.Worker(symbolic.builder(given, m['stateful'], max(1, m['szout']), log, bool(m.get('hollow'))),
+                                     m['szin'], m['szout']))
         else:
             nodes.append(nodes[g].fork())
     for src, outport, dst, inport in spec['edges']:
@@ -306,6 +307,8 @@ def evaluate(built: Built, spec: dict, listed: typing.Optional[list] = None) -> 
             train = port_value(*feeds[(id(node), gport.Train())]) if (id(node), gport.Train()) in feeds else None
             label = port_value(*feeds[(id(node), gport.Label())])
             result = Term('fit', name, loaded(node), train, label)
+            if node.builder.actor is symbolic.Hollow:
+                result = NONE  # trained, yet the state it hands on (to its forks, to the registry) is empty
         else:
             state = NONE
             if node.stateful:
